@@ -115,6 +115,9 @@ def gen_cases(rng, thorough):
         c["id"] = k + 1
         c["ev"] = "Construct"
         c["facecoord"] = rng.random() < 0.7      # the face dimension with or without a coordinate variable in the dataset
+        # the faces may be labelled otherwise than 0..n-1 (1-based tile numbers, a subset of the tiles of a larger
+        # grid): the table then speaks of the LABELS; in the record it stays in terms of 0..n-1
+        c["label_offset"] = rng.choice([0, 0, 1, 1, 7]) if c["facecoord"] and c["facedim_in_ds"] else 0
     return cases
 
 
@@ -125,7 +128,8 @@ def execute(case):
 
     rec = dict(case)
     nf = case["nfaces"]
-    coords = {"d9": ("d9", np.arange(nf))} if case.get("facecoord", True) else {}
+    off = case.get("label_offset", 0)
+    coords = {"d9": ("d9", np.arange(nf) + off)} if case.get("facecoord", True) else {}
     for d in ("d1", "d2", "d4", "d5"):
         coords[d] = (d, np.arange(3.0))
     ds = xr.Dataset(coords=coords)
@@ -136,7 +140,8 @@ def execute(case):
         ds = ds.assign_coords(facelabel=("d9", np.arange(nf)))
     if not case["facedim_in_ds"] and kind == "var":
         ds["facemask"] = ("d9", np.arange(nf))
-    fc = faces.fc_dict(case["table"], nf, "d9" if case["facedim_in_ds"] else {"missing": "d_missing", "coord": "facelabel", "var": "facemask"}[kind],
+    table = [[e[0] + off, e[1], e[2], e[3] + off, e[4], e[5]] for e in case["table"]]
+    fc = faces.fc_dict(table, nf, "d9" if case["facedim_in_ds"] else {"missing": "d_missing", "coord": "facelabel", "var": "facemask"}[kind],
                        order=case.get("order"))
     if case["nfacedims"] == 2:
         fc["d_second"] = {0: {}}
